@@ -23,7 +23,7 @@ WORKER = os.path.join(os.path.dirname(os.path.dirname(os.path.abspath(__file__))
 
 
 PROGRAMS = [f"{g}_{u}" for u in ("r_lit", "r_num", "c_pre", "ext", "cell") for g in ("G", "Series", "Wrapper")] + \
-    [f"{g}_{u}" for u in ("mos_n", "mos_p") for g in ("MosStack", "Series")] + ["tops_list", "tops_list_rev"]
+    [f"{g}_{u}" for u in ("mos_n", "mos_p") for g in ("MosStack", "Series")] + ["long_scalar_names", "uncached_generator", "uncached_generator_direct", "tops_list", "tops_list_rev"]
 
 
 def corpus():
@@ -35,7 +35,28 @@ def corpus():
     top = {"name": "Top", "sigs": [], "bundles": [{"n": "b", "of": "B", "port": False}],
            "insts": [{"n": "i", "of": {"k": "module", "name": "Inner"}, "conns": [[f"b{k}", {"k": "bundle", "n": "b"}] for k in range(1, 5)]}]}
     d = {"bundles": [bdef], "modules": [inner, top], "top": "Top"}
-    return [{"design": d, "style": s} for s in ("proc", "gen")]
+    out = [{"design": d, "style": s} for s in ("proc", "gen")]
+    # one AnonymousBundle object feeding several bundle ports of one instance (and of two instances)
+    S = lambda n: {"k": "sig", "n": n}
+    sg = lambda n, w=1: {"n": n, "w": w, "port": False, "dir": "none"}
+    ab = {"k": "anon", "id": 1, "fields": [["x", S("s1")], ["y", S("s2")]]}
+    top2 = {"name": "Top", "sigs": [sg("s1"), sg("s2")], "bundles": [],
+            "insts": [{"n": "i", "of": {"k": "module", "name": "Inner"}, "conns": [[f"b{k}", ab] for k in (3, 1, 4, 2)]},
+                      {"n": "j", "of": {"k": "module", "name": "Inner"}, "conns": [[f"b{k}", ab] for k in (2, 4)] + [[f"b{k}", {"k": "anon", "fields": ab["fields"]}] for k in (1, 3)]}]}
+    out += [{"design": {"bundles": [bdef], "modules": [inner, top2], "top": "Top"}, "style": s} for s in ("proc", "class")]
+    # groups of port references with no declared signal, where several ports of one instance hang on the same reference: the implicit
+    # signal's name must not depend on which of them is met first
+    E4 = {"k": "leaf", "kind": ".E4", "ports": [{"n": p, "w": 1} for p in ("p", "q", "r", "w")], "params": [], "py": {"k": "ext", "name": "E4"}}
+    P = lambda i, p: {"k": "pref", "inst": i, "port": p}
+    for variant in range(4):
+        insts = [{"n": "z", "of": E4, "conns": [["p", P("y", "w")], ["q", S("s1")], ["r", S("s1")], ["w", S("s2")]]},
+                 {"n": "y", "of": E4, "conns": [["w", P("z", "p")], ["p", S("s1")], ["q", S("s1")], ["r", S("s2")]]},
+                 {"n": "a", "of": E4, "conns": [["p", P("z", "p")], ["q", P("z", "p")], ["r", P("y", "w") if variant % 2 else P("z", "p")], ["w", S("s2")]]},
+                 {"n": "b", "of": E4, "conns": [["q", P("a", "w") if variant >= 2 else S("s2")], ["r", P("z", "p")], ["p", P("z", "p")], ["w", P("z", "p")]]}]
+        if variant == 3:
+            insts.reverse()
+        out.append({"design": {"bundles": [], "top": "Top", "modules": [{"name": "Top", "sigs": [sg("s1"), sg("s2")], "bundles": [], "insts": insts}]}, "style": "proc"})
+    return out
 
 
 def run(ctx):
